@@ -124,7 +124,7 @@ def lib_witness_type(inp):
     return 'legacy'
 
 
-def realise(plan, with_private=False):
+def realise(plan, with_private=False, allow_keyless=True):
     """Build the transaction through the library API. Returns the Transaction (unsigned)."""
     from bitcoinlib.transactions import Transaction
     from bitcoinlib.keys import Key
@@ -136,6 +136,17 @@ def realise(plan, with_private=False):
             keys = [Key(d, network=plan['network'], compressed=inp['compressed']) for d in inp['secrets']]
         else:
             keys = [Key(pub_bytes(d, inp['compressed']).hex(), network=plan['network']) for d in inp['secrets']]
+        if inp.get('keyless') and allow_keyless and inp['kind'] in ('p2pkh', 'p2wpkh', 'p2sh_p2wpkh'):
+            # the input is known by the ADDRESS of the output it spends only; its key arrives with sign()
+            h = hash160(input_pubs(inp)[0])
+            addr = {'p2pkh': lambda: raddr.address_for('p2pkh', h, plan['network']),
+                    'p2wpkh': lambda: raddr.address_for('p2wpkh', h, plan['network']),
+                    'p2sh_p2wpkh': lambda: raddr.address_for('p2sh', hash160(raddr.script_p2wpkh(h)),
+                                                             plan['network'])}[inp['kind']]()
+            t.add_input(prev_txid=inp['prev'], output_n=inp['n'], address=addr, script_type=lib_script_type(inp),
+                        sequence=inp['seq'], compressed=inp['compressed'], value=inp['value'],
+                        witness_type=lib_witness_type(inp))
+            continue
         t.add_input(prev_txid=inp['prev'], output_n=inp['n'], keys=keys, script_type=lib_script_type(inp),
                     sigs_required=inp['m'] if inp['kind'] in MS_KINDS else None, sort=bool(inp.get('sort')),
                     sequence=inp['seq'], compressed=inp['compressed'], value=inp['value'],
@@ -225,6 +236,7 @@ def inputs(draw, network, max_keys=4, kinds=None):
                                   st.integers(0, 0xffffffff))),
             'value': draw(_values()),
             'alt_type': draw(st.booleans()),
+            'keyless': kind in ('p2pkh', 'p2wpkh', 'p2sh_p2wpkh') and draw(st.integers(0, 4)) == 0,
             'signers': signers}
 
 
